@@ -99,11 +99,41 @@ def replay(rec):
         ln = i.length()
         if ob == "C02:text-demotes-valid-instruction":
             return info is not None and info[0] == "ok" and c["text"] is None
+        if ob == "C02:encode-differs-after-another-decode":
+            # another instruction of the same opcode (operand bytes xor 0x5A) is decoded in between
+            cls = rec["class"].split(":")
+            nhead = (0 if cls[0] == "--" else len(cls[0]) // 2) + 1
+            other = bytes(data[:nhead]) + bytes(b ^ 0x5A for b in data[nhead:])
+            try:
+                decode(other, addr, OPCODES)
+            except AssertionError:
+                pass
+            try:
+                enc3 = bytes(encode(i, addr))
+            except Exception as e:  # noqa: BLE001
+                print("encode raised after another decode", type(e).__name__, e)
+                return True
+            print("bytes", data[:ln].hex(), "other", other.hex(), "encode afterwards", enc3.hex())
+            return enc3 != data[:ln]
+        if ob.startswith("C02:unexpected-exception"):
+            want = ob.split(":")[2]
+            try:
+                enc = bytes(encode(i, addr))
+                i2 = decode(enc, addr, OPCODES)
+                if i2 is not None:
+                    i2.render()
+                    a, b = MockLowLevelILFunction(), MockLowLevelILFunction()
+                    i.lift(a, addr)
+                    i2.lift(b, addr)
+            except Exception as e:  # noqa: BLE001
+                print("round trip raised", type(e).__name__, e)
+                return type(e).__name__ == want
+            return False
         try:
             enc = bytes(encode(i, addr))
         except Exception as e:  # noqa: BLE001
             print("encode raised", type(e).__name__, e)
-            return ob.startswith("C02:unexpected-exception")
+            return False
         if ob == "C02:encode-differs":
             print("bytes", data[:ln].hex(), "encode", enc.hex())
             return enc != data[:ln]
